@@ -108,6 +108,32 @@ def numeral_faults(spans, enc):
                 yield [rep(a, 3, enc_text(num, enc), "numeral_pds_len")]
 
 
+TYPED_TOKENS = ["NaN", "nan", "sNaN", "Inf", "-Inf", "Infinity", "-Infinity", "1E5", "1e-3", "0x10", "+1", "-1", "-0",
+                "1_0", "١٢", ".5", "5.", "1.2.3", "--1", "99999999999999", "0"]
+
+
+def typed_token_faults(spans, enc):
+    """a typed field (int / long / decimal / datetime) rewritten as a whole: special numerals padded with
+    spaces or zeros on either side, all zeros, all blanks, all nines (coordinated multi-byte faults)"""
+    for el in spans["elems"]:
+        if el.get("ptype") not in ("int", "long", "decimal", "datetime") or el["type"] != "FIXED":
+            continue
+        a, b = el["data"]
+        w = b - a
+        fills = ["0" * w, " " * w, "9" * w, ("0" * w)[:-1] + " ", " " + ("0" * w)[1:]]
+        for tok in TYPED_TOKENS:
+            if len(tok) <= w:
+                fills += [tok.rjust(w), tok.ljust(w), tok.rjust(w, "0")]
+        seen = set()
+        for t in fills:
+            if t in seen:
+                continue
+            seen.add(t)
+            bs = enc_text(t, enc)
+            if len(bs) == w:
+                yield [rep(a, w, bs, "typed_field_token")]
+
+
 def splice_faults(msg: bytes, spans, enc):
     """directed mis-framing: a variable element's prefix rewritten to a negative numeral with the
     following bytes laid out so that a naive pointer walk (pointer += prefix size + declared length)
